@@ -62,7 +62,7 @@ func main() {
 	// stack is therefore recursion inside the library that executes no VM step (e.g. walking a value that
 	// contains itself); the smaller limit makes that fatal error arrive in seconds instead of half a minute.
 	debug.SetMaxStack(512 << 20)
-	kernel.Warmup()
+	kernel.Warmup(*prop)
 
 	switch cmd {
 	case "plan":
